@@ -13,11 +13,12 @@ LEVEL = "proof"
 PROPS_FILE = "C12.v"
 RUN_MODULE = "RunC12"
 TRANSLATOR_UNITS = []
-RULE = ("exhaustive: every strobe/data word (w_en, r_en, w_data; w_data fixed to 0 when w_en=0) of length 6 "
-        "(thorough 7) for width 0 and of length 4 (thorough 6) for width 1, depth in {0,1,2,3}, both FIFOs (a word covers "
-        "all its prefixes because every cycle is compared); seeded random walks of 300 (thorough 3000) cycles for depth in "
-        "{0,1,2,3,4,5,7,8,9,16,17} x width in {0,1,2,8} x both FIFOs with phases fill/drain/mixed/stream/idle whose "
-        "lengths scale with the depth, data random, counting, or wider than the port; constructor arguments (negative "
+RULE = ("exhaustive: every strobe/data word (w_en, r_en, w_data; w_data fixed to 0 when w_en=0) for depth in {0,1,2,3}, "
+        "both FIFOs: width 0 words of length 5 (6 for depth 3; thorough 7), width 1 words of length 4 (thorough 6), depth 0 "
+        "length 3 (a word covers all its prefixes because every cycle is compared); 4 seeded random walks of 300 (thorough "
+        "3000) cycles for each depth in "
+        "{0,1,2,3,4,5,7,8,9,16,17} x width in {0,1,2,8} x both FIFOs starting with a complete fill, a stream phase on the full queue "
+        "and a complete drain, then random phases fill/drain/mixed/stream/idle whose lengths scale with the depth, data random, counting, or wider than the port; constructor arguments (negative "
         "width/depth) compared on acceptance. Per cycle compared: w_rdy, r_rdy, r_data (masked while r_rdy=0), level, "
         "w_level, r_level (packed, several cycles per integer), plus the deque monitor verdict. non-trivial = some entry became readable (r_rdy seen); "
         "distinct by case hash; full/empty/wrap-around visit counts are in the evidence (walk_visits)")
@@ -51,13 +52,19 @@ def _walk(rng, w, d, n):
     cnt = rng.randrange(1, 256)
     phases = ["fill", "drain", "mixed", "stream", "fill", "drain", "idle", "mixed"]
     rng.shuffle(phases)
+    # every walk starts by filling completely, streaming while full, and draining completely, so that
+    # full, empty and pointer wrap-around are visited whatever the random phases do afterwards
+    forced = [("fill!", d + 2), ("stream", d + 1), ("drain!", d + 3)]
     pi = 0
     while len(xs) < n:
-        ph = phases[pi % len(phases)]
-        pi += 1
-        ln = rng.randrange(2, 2 * d + 8) if ph != "idle" else rng.randrange(1, 4)
-        pw, pr = {"fill": (0.9, 0.1), "drain": (0.1, 0.9), "mixed": (0.5, 0.5),
-                  "stream": (1.0, 1.0), "idle": (0.0, 0.0)}[ph]
+        if forced:
+            ph, ln = forced.pop(0)
+        else:
+            ph = phases[pi % len(phases)]
+            pi += 1
+            ln = rng.randrange(2, 2 * d + 8) if ph != "idle" else rng.randrange(1, 4)
+        pw, pr = {"fill": (0.9, 0.1), "drain": (0.1, 0.9), "mixed": (0.5, 0.5), "fill!": (1.0, 0.0),
+                  "drain!": (0.0, 1.0), "stream": (1.0, 1.0), "idle": (0.0, 0.0)}[ph]
         if ph == "mixed":
             pw, pr = rng.choice(((0.5, 0.5), (0.7, 0.6), (0.3, 0.4)))
         for _ in range(ln):
@@ -88,7 +95,11 @@ def gen_cases(tier, seed):
     small = []
     for k in KINDS:
         for d in (0, 1, 2, 3):
-            for w, L in ((0, 7 if thorough else 6), (1, 6 if thorough else 4)):
+            for w in (0, 1):
+                if thorough:
+                    L = 7 if w == 0 else 6
+                else:
+                    L = (6 if d == 3 else 5) if w == 0 else 4
                 if d == 0:
                     L = 3
                 for word in _words(w, L):
